@@ -176,11 +176,12 @@ theorem RInv.depsUpdate {add : Nat → Dep → Prop} {w w' : World} (hinv : RInv
     rw [hn] at hck hg ho
     have hV' := (h.v0 y).1 hV
     exact (h.goodRow row).2 (hinv.d.j y hy hV' hck hg ho row (hdeps y hy hV' row hrow ht) ht)
-  · intro z hz
+  · intro z hz hex
     obtain ⟨n, hn⟩ := h.getRec' R z
     rw [hn] at hz ⊢
     rw [readStamp_congr _ h.fs]
-    exact hinv.d.ov z hz
+    rw [existsF_congr _ h.fs] at hex
+    exact hinv.d.ov z hz hex
   · intro z hz
     obtain ⟨n, hn⟩ := h.getRec' R z
     rw [hn] at hz ⊢
@@ -277,8 +278,10 @@ theorem RInv.recWrite {w : World} (hinv : RInv R cyc w) (f : Nat) (r' : Rec) (hw
     (hJ : f ∉ cyc → V0 R (setRec w f r') f → isCheckedR (getRec (setRec w f r') R f) R = false →
       (getRec (setRec w f r') R f).isGenerated = true → (getRec (setRec w f r') R f).isOverride = false →
       ∀ row ∈ w.deps, row.target = f → GoodRow R cyc w row)
-    (hOV : (getRec (setRec w f r') R f).isOverride = true →
-      (getRec (setRec w f r') R f).failed = none ∧ (getRec (setRec w f r') R f).stamp = some (readStamp w f))
+    (hOV : (getRec (setRec w f r') R f).isOverride = true → existsF w f = true →
+      isFailedR (getRec (setRec w f r') R f) R = true ∨
+      ((getRec (setRec w f r') R f).failed = none ∧
+        ((getRec (setRec w f r') R f).stamp = some (readStamp w f) ∨ (getRec (setRec w f r') R f).isGenerated = true)))
     (hg0 : f = alwaysId → r'.isGenerated = false)
     (hP1 : isCheckedR (getRec (setRec w f r') R f) R = true → (getRec (setRec w f r') R f).failed = none)
     (hP2 : f ∈ cyc → (getRec (setRec w f r') R f).changed = some R → (getRec (setRec w f r') R f).failed = none)
@@ -308,11 +311,11 @@ theorem RInv.recWrite {w : World} (hinv : RInv R cyc w) (f : Nat) (r' : Rec) (hw
       unfold V0 at hV
       rw [hne y hyf] at hV
       exact hinv.d.j y hy hV hck hg ho row hrow ht
-  · intro z hz
+  · intro z hz hex
     by_cases hzf : z = f
-    · subst hzf; exact hOV hz
+    · subst hzf; exact hOV hz hex
     · rw [hne z hzf] at hz ⊢
-      exact hinv.d.ov z hz
+      exact hinv.d.ov z hz hex
   · intro z hz
     by_cases hzf : z = f
     · subst hzf; exact hP1 hz
@@ -403,9 +406,9 @@ theorem RInv.settleWrite {w : World} (hinv : RInv R cyc w) (t : Nat) (ht : t ∉
       · rw [h] at hgen; cases hgen
       · rw [h] at hov; cases hov)
     (by
-      intro _
+      intro _ _
       rw [hc]
-      exact ⟨hf, hs⟩)
+      exact .inr ⟨hf, .inl hs⟩)
     hg0
     (by intro _; rw [hc]; exact hf)
     (by intro _ _; rw [hc]; exact hf)
@@ -417,7 +420,7 @@ theorem isFailedR_self {r : Rec} (hR : 0 < R) (h : r.failed = some R) : isFailed
 
 /-- Recording a failure of an open target. -/
 theorem RInv.failWrite {w : World} (hR : 0 < R) (hinv : RInv R cyc w) (t : Nat) (ht : t ∉ cyc) (ho : Open R w t)
-    (r' : Rec) (hwf : WFrec R r') (hf : r'.failed = some R) (hov : r'.isOverride = false)
+    (r' : Rec) (hwf : WFrec R r') (hf : r'.failed = some R)
     (hck : isCheckedR r' R = false) (hg0 : t = alwaysId → r'.isGenerated = false) :
     RInv R cyc (setRec w t r') ∧ RStep R cyc noAdd w (setRec w t r') ∧ Done R (setRec w t r') t := by
   obtain ⟨c, hc⟩ := getRec_fields (setRec w t r') R t
@@ -433,10 +436,8 @@ theorem RInv.failWrite {w : World} (hR : 0 < R) (hinv : RInv R cyc w) (t : Nat) 
   obtain ⟨i1, i2⟩ := hinv.recWrite t r' hwf (fun h => absurd h ho.not_settled) (fun _ _ => hD)
     (fun _ hV => absurd hV hnV)
     (by
-      intro h
-      rw [hc] at h
-      simp only at h
-      rw [hov] at h; cases h)
+      intro _ _
+      left; rw [hc]; exact isFailedR_self hR hf)
     hg0
     (by
       intro h
